@@ -51,6 +51,9 @@ SRC = "exetera/core/operations.py"
 #   arr2 (2-D integer array: the list of its rows; `a[k]` is row k, `for row in a`, `len(a)` the number of rows)
 #   oarr (KT4B: an array / typed list or None, tested with `is None` / `is not None` ANYWHERE: a value and a presence flag, like
 #         opt_int; a typed list of arrays is an arr2)
+#   arr2w (a 2-D integer array whose subscripts follow numpy's WRAP-AROUND of a negative index, `-len ≤ i < 0` is `len + i`:
+#          `fast_csv_reader` reads `column_inds[col_index, -1]` while it is on the header line)
+#   str (a Python str; only `==` / `!=` against string literals)
 WHITELIST = [
     ("apply_spans_count", ["arr", "opt_arr"]),
     ("apply_spans_first", ["arr", "arr", "opt_arr"]),
@@ -119,14 +122,26 @@ WHITELIST = [
     ("get_indexed_string_unique", ["arr", "arr", "arr2", "oarr", "oarr", "oarr"]),
     ("isin_indexed_string_speedup", ["arr2", "arr", "arr"]),
     ("safe_map_indexed_values", ["arr", "arr", "arr", "barr", "oarr"]),
+    # KT4A  (a third component gives per-kernel options: "src" = the source file of the kernel when it is not SRC)
+    ("fast_csv_reader", ["arr", "int", "arr2w", "arr", "arr", "bool", "int", "int", "int", "int"],
+     {"src": "exetera/core/csv_reader_speedup.py"}),
+    ("transform_to_values", ["arr2", "arr", "arr", "int", "int"]),
+    # elements / validity are the bool arrays NumericImporter.import_part allocates (np.zeros(n, 'bool'), np.ones(n, bool)),
+    # invalid_value its integer default (0), validation_mode a Python str, field_name the bytes of the name (a uint8 array)
+    ("numeric_bool_transform", ["barr", "barr", "arr2", "arr", "arr", "int", "int", "int", "str", "arr"]),
 ]
 
 LEAN_T = {"int": "Int", "bool": "Bool", "arr": "List Int", "barr": "List Bool", "opt_arr": "Option (List Int)",
-          "arr2": "List (List Int)", "opt_int": "Option Int", "oarr": "Option (List Int)", "set": "List Int"}
-DEFAULT = {"int": "0", "bool": "false", "arr": "[]", "barr": "[]", "arr2": "[]", "set": "[]"}
+          "arr2": "List (List Int)", "opt_int": "Option Int", "oarr": "Option (List Int)", "set": "List Int",
+          "arr2w": "List (List Int)"}
+DEFAULT = {"int": "0", "bool": "false", "arr": "[]", "barr": "[]", "arr2": "[]", "set": "[]", "arr2w": "[]"}
 PRESENT = {"opt_int": "int", "oarr": "arr"}      # optional parameters carried as a value and a presence flag
 TRANSLATED = {}                                  # kernels translated so far in this run (a later kernel may call them)
+KT4A_KERNELS = ("fast_csv_reader", "transform_to_values", "numeric_bool_transform")   # rendered by the KT4A branches where two builders added the same syntax independently
 ELEM = {"arr": "int", "barr": "bool", "arr2": "arr"}        # arr2: a 2-D integer array, passed as the list of its rows
+ELEM["arr2w"] = "arr"
+LEAN_T["str"] = "String"        # a Python str parameter: only compared (`==` / `!=`) with string literals
+DEFAULT["str"] = '""'           # (a local bound to a string literal: its slot before the binding)
 
 
 class Unsupported(Exception):
@@ -255,6 +270,7 @@ class Kernel:
         self.tmp = 0
         self.defs = []
         self.ret_type = None
+        self.arr2_locals = set()     # locals that are lists of arrays (`x = []` … `x.append(array)`)
 
     # ------------------------------------------------------------------------------------------------------------
     # canonical names
@@ -328,6 +344,21 @@ class Kernel:
         if any(isinstance(n, ast.Return) for b in self.body for n in ordered_nodes(b)):
             raise Unsupported("return in a generator")
         self.yield_n = ns.pop()
+    def only_empty_init(self, v):
+        """the local `v` is bound by `v = []` only (then the element type of the list is that of what is appended)"""
+        if v not in self.locals:
+            return False
+        ok = False
+        for b in self.body:
+            for n in ordered_nodes(b):
+                if isinstance(n, ast.Name) and n.id == v and isinstance(n.ctx, ast.Store):
+                    ok = None if ok is None else True
+                if isinstance(n, (ast.For, ast.AugAssign)) and isinstance(n.target, ast.Name) and n.target.id == v:
+                    return False
+                if isinstance(n, ast.Assign) and any(isinstance(t, ast.Name) and t.id == v for t in n.targets) and \
+                        not (len(n.targets) == 1 and isinstance(n.value, ast.List) and not n.value.elts):
+                    return False
+        return bool(ok)
 
     def opt_params_static(self):
         return {f"p{k}" for k, t in enumerate(self.ptypes) if t == "opt_arr"}
@@ -364,6 +395,11 @@ class Kernel:
                     mark(st.orelse, stack)
         mark(self.body, [])
         self.loop_return = any(v[3] for v in self.loops.values())
+
+    def is_forever(self, st):
+        """`while True:` without a `break` of its own and with a `return` inside"""
+        return isinstance(st, ast.While) and isinstance(st.test, ast.Constant) and st.test.value is True and \
+            not self.loops[id(st)][1] and self.loops[id(st)][3]
 
     @staticmethod
     def has_while(stmts):
@@ -431,6 +467,8 @@ class Kernel:
                 return "bool", "true" if n.value else "false", []
             if isinstance(n.value, int):
                 return "int", str(n.value), []
+            if isinstance(n.value, str) and all(32 <= ord(ch) < 127 and ch not in '"\\' for ch in n.value):
+                return "str", lean_str(n.value), []                 # a string literal (printable ASCII only)
             raise Unsupported(f"constant {n.value!r}")
         if isinstance(n, ast.Name):
             return self.var(n.id, defined)
@@ -478,6 +516,26 @@ class Kernel:
                 isinstance(n.left, ast.Name) and n.left.id in self.optint and is_none(n.comparators[0]):
             flag = f"s.{n.left.id}_some"
             return "bool", (f"(!{flag})" if isinstance(n.ops[0], ast.Is) else flag), []
+        if isinstance(n, ast.Compare) and len(n.ops) == 1 and isinstance(n.ops[0], ast.In) and \
+                isinstance(n.comparators[0], ast.Tuple):
+            # `x in (c1, c2, …)` against a non-empty tuple of integer literals: Python compares with c1, c2, … in order
+            cs = []
+            for e in n.comparators[0].elts:
+                neg = isinstance(e, ast.UnaryOp) and isinstance(e.op, ast.USub)
+                c = e.operand if neg else e
+                if not (isinstance(c, ast.Constant) and isinstance(c.value, int) and not isinstance(c.value, bool)):
+                    raise Unsupported("`in` against a tuple with an element that is not an integer literal")
+                cs.append(f"(-{c.value})" if neg else str(c.value))
+            if not cs:
+                raise Unsupported("`in` against an empty tuple")
+            t, x, b = self.expr(n.left, defined)
+            if t == "int":
+                return "bool", "(" + " || ".join(f"{x} == {c}" for c in cs) + ")", b        # a disjunction of equalities
+            if t == "arr":
+                # an ARRAY on the left: `bool(c1 == a) or …` — the truth value of an array of length ≠ 1 is a ValueError
+                tmp = self.fresh()
+                return "bool", tmp, b + [(tmp, f"arrInTupleE {x} [{', '.join(cs)}]")]
+            raise Unsupported(f"`in` with a {t} on the left")
         if isinstance(n, ast.Compare) and len(n.ops) == 1 and isinstance(n.ops[0], (ast.In, ast.NotIn)):
             (tl, xl, bl), (tr, xr, br) = self.expr(n.left, defined), self.expr(n.comparators[0], defined)
             if tl != "int" or tr != "set":
@@ -495,6 +553,8 @@ class Kernel:
                 if tl == "int" and tr == "int" and o in (ast.Lt, ast.LtE, ast.Gt, ast.GtE):
                     terms.append(f"(decide ({xl} {({ast.Lt: '<', ast.LtE: '≤', ast.Gt: '>', ast.GtE: '≥'})[o]} {xr}))")
                 elif tl == tr and tl in ("int", "bool") and o in (ast.Eq, ast.NotEq):
+                    terms.append(f"({xl} {'==' if o is ast.Eq else '!='} {xr})")
+                elif tl == "str" and tr == "str" and o in (ast.Eq, ast.NotEq):
                     terms.append(f"({xl} {'==' if o is ast.Eq else '!='} {xr})")
                 elif tl == "bool" and tr == "bool" and o in (ast.Is, ast.IsNot) and xr in ("true", "false"):
                     terms.append(f"({xl} {'==' if o is ast.Is else '!='} {xr})")
@@ -526,12 +586,32 @@ class Kernel:
             if t not in ELEM:
                 raise Unsupported(f".shape of a {t}")
             return "int", f"(pyLen {x})", b
+        if isinstance(n, ast.Subscript) and isinstance(n.value, ast.Attribute) and n.value.attr == "shape" and \
+                isinstance(n.slice, ast.Constant) and n.slice.value == 1:
+            t, x, b = self.expr(n.value.value, defined)             # `a.shape[1]` of a 2-D array: the length of its rows
+            if t not in ("arr2", "arr2w"):                          # (IndexError-class error for an array without rows: the
+                raise Unsupported(f".shape[1] of a {t}")            #  list of rows does not carry the second dimension then)
+            tmp = self.fresh()
+            return "int", tmp, b + [(tmp, f"shape1E {x} {lean_str(ast.unparse(n))}")]
         if isinstance(n, ast.Subscript):
             tb_, xb_, bb_ = self.expr(n.value, defined)
             if tb_ not in ELEM:
                 raise Unsupported(f"subscript of a {tb_}")
             site = lean_str(ast.unparse(n))
             sl = n.slice
+            if tb_ == "arr2w" and isinstance(sl, ast.Tuple) and len(sl.elts) == 2:
+                # `a[i, j]` with numpy's wrap-around of a negative index, in both dimensions
+                (ti, xi, bi), (tj, xj, bj) = self.expr(sl.elts[0], defined), self.expr(sl.elts[1], defined)
+                if ti != "int" or tj != "int":
+                    raise Unsupported("2-D subscript with a non-integer index")
+                row, tmp = self.fresh(), self.fresh()
+                return "int", tmp, bb_ + bi + bj + [(row, f"idxWE {xb_} {xi} {site}"), (tmp, f"idxWE {row} {xj} {site}")]
+            if tb_ == "arr2w" and not isinstance(sl, (ast.Slice, ast.Tuple)) and self.neg_const(sl) is None:
+                ti, xi, bi = self.expr(sl, defined)
+                if ti != "int":
+                    raise Unsupported(f"subscript with an index of type {ti}")
+                tmp = self.fresh()
+                return "arr", tmp, bb_ + bi + [(tmp, f"idxWE {xb_} {xi} {site}")]
             if isinstance(sl, ast.Slice):
                 if sl.step is not None:
                     raise Unsupported("slice with a step")
@@ -578,6 +658,9 @@ class Kernel:
         if isinstance(n, ast.List):
             # a list literal of integers (`[]` is taken to be a list of integers: a later append of anything else fails)
             parts = [self.expr(e, defined) for e in n.elts]
+            if parts and all(p[0] == "arr" for p in parts):
+                # a list literal of arrays: a list of arrays (like a 2-D array, the list of its rows)
+                return "arr2", "[" + ", ".join(p[1] for p in parts) + "]", [b for p in parts for b in p[2]]
             if any(p[0] != "int" for p in parts):
                 raise Unsupported("list literal with non-integer elements")
             return "arr", "[" + ", ".join(p[1] for p in parts) + "]", [b for p in parts for b in p[2]]
@@ -748,6 +831,24 @@ class Kernel:
             if len(st.targets) != 1:
                 raise Unsupported("chained assignment")
             tg = st.targets[0]
+            if isinstance(tg, ast.Tuple) and self.name in KT4A_KERNELS:
+                # `a, b = x, y`: the right-hand sides are evaluated first, left to right, then bound left to right
+                if not (isinstance(st.value, ast.Tuple) and len(st.value.elts) == len(tg.elts) and
+                        all(isinstance(e, ast.Name) for e in tg.elts)):
+                    raise Unsupported("tuple assignment that is not `name, … = expr, …` of equal lengths")
+                if any(isinstance(e, ast.List) and not e.elts for e in st.value.elts):
+                    raise Unsupported("tuple assignment of an empty list")
+                parts = [self.expr(e, defined) for e in st.value.elts]
+                lines, binds = [], []
+                for e, (t, x, b) in zip(tg.elts, parts):
+                    binds += b
+                    tmp = self.fresh()
+                    lines.append((e.id, t, tmp, x))
+                out = [f"let {tmp} : {LEAN_T[t]} := {x}" for (_, t, tmp, x) in lines]
+                for (v, t, tmp, _) in lines:
+                    out.append(self.assign_name(v, t, tmp))
+                    defined = defined | {v}
+                return self.wrap(binds, "\n".join(out)).split("\n"), defined, False
             if isinstance(tg, ast.Tuple) and isinstance(st.value, ast.Tuple) and len(tg.elts) == len(st.value.elts) and \
                     all(isinstance(e, ast.Name) for e in tg.elts) and len({e.id for e in tg.elts}) == len(tg.elts):
                 # `a, b = e1, e2`: every right-hand side is evaluated (in the old state) before any name is bound
@@ -759,6 +860,8 @@ class Kernel:
                 line = f"let s := {{ s with {', '.join(upd)} }}"
                 return self.wrap([b for p in parts for b in p[2]], line).split("\n"), defined | {e.id for e in tg.elts}, False
             t, x, b = self.expr(st.value, defined)
+            if isinstance(tg, ast.Name) and tg.id in self.arr2_locals and isinstance(st.value, ast.List) and not st.value.elts:
+                t = "arr2"                                          # `[]` of a list of arrays (see `append`)
             if isinstance(tg, ast.Name):
                 line = self.assign_name(tg.id, t, x)
                 return self.wrap(b, line).split("\n"), defined | {tg.id}, False
@@ -785,12 +888,22 @@ class Kernel:
                             b = b + bi
                             bounds.append(f"(some {xi})")
                     b = b + bb_ + [(tmp, f"setSliceE {xb_} {bounds[0]} {bounds[1]} {x}")]
+                elif isinstance(tg.slice, ast.Tuple):
+                    # `a[i, j] = v` on a 2-D array (the list of its rows): row `i`, then entry `j`, both checked
+                    if tb_ not in ("arr2", "arr2w") or len(tg.slice.elts) != 2 or t != "int":
+                        raise Unsupported(f"tuple-subscript store of a {t} into a {tb_}")
+                    (ti, xi, bi), (tj, xj, bj) = self.expr(tg.slice.elts[0], defined), self.expr(tg.slice.elts[1], defined)
+                    if ti != "int" or tj != "int":
+                        raise Unsupported("2-D subscript with a non-integer index")
+                    b = b + bi + bj + [(tmp, f"{'setIdx2WE' if tb_ == 'arr2w' else 'setIdx2E'} {xb_} {xi} {xj} {x} {site}")]
                 elif self.neg_const(tg.slice) is not None:
                     if t != ELEM[tb_]:
                         raise Unsupported(f"store of a {t} into a {tb_}")
                     b = b + bb_ + [(tmp, f"setIdxNegE {xb_} {self.neg_const(tg.slice)} {x} {site}")]
                 else:
                     ti, xi, bi = self.expr(tg.slice, defined)
+                    if ti == "int" and t == "int" and tb_ == "barr":
+                        t, x = "bool", f"({x} != 0)"                # an integer stored into a bool array: nonzero ↦ True
                     if ti != "int" or t != ELEM[tb_]:
                         raise Unsupported(f"store of a {t} at an index of type {ti} into a {tb_}")
                     b = b + bi + bb_ + [(tmp, f"setIdxE {xb_} {xi} {x} {site}")]
@@ -846,6 +959,12 @@ class Kernel:
                     ba = [(xa, f"if s.{a}_some then .ok s.{a} else .error (.other {lean_str('AttributeError')})")]
                 t, x, b = self.expr(c.args[0], defined)
                 want = ELEM.get(ta) if c.func.attr == "append" else ta
+                if ta == "arr" and t == "arr" and c.func.attr == "append" and self.only_empty_init(a):
+                    # a list that starts as `[]` and receives ARRAYS: a list of arrays (rendered like a 2-D array, the list
+                    # of its rows); the type is fixed now and the rendering pass restarted
+                    self.arr2_locals.add(a)
+                    self.env[a] = "arr2"
+                    raise Untyped(a)
                 if ta not in ELEM or t != want or (ba and a not in self.optint):
                     raise Unsupported(f"{c.func.attr} of a {t} to a {ta}")
                 b = ba + b
@@ -867,6 +986,8 @@ class Kernel:
                 return [f".error (.oob {lean_str('raise IndexError')})"], defined, True
             if name == "ValueError":
                 return [f".error (.valueError {lean_str('raise ValueError')})"], defined, True
+            if name == "Exception":
+                return [f".error (.other {lean_str('Exception')})"], defined, True
             raise Unsupported(f"raise {name}")
         raise Unsupported(f"statement {type(st).__name__}")
 
@@ -1100,6 +1221,10 @@ class Kernel:
             if body[-1].value is None:
                 raise Unsupported("return without a value")
             ret = body.pop()
+        elif body and self.is_forever(body[-1]):
+            # the function ends in `while True:` that is only left by `return` (no `break`): nothing follows the loop; the
+            # loop combinator can only hand back a state whose `ret` flag is raised, the other branch is an explicit error
+            ret = None
         else:
             # the function falls off its end (returns None): its result is what it stored into its array parameters
             if any(isinstance(n, ast.Return) for b in body for n in ordered_nodes(b)):
@@ -1122,8 +1247,12 @@ class Kernel:
             raise Unsupported("return in a generator")
         defined = {f"p{k}" for k in range(len(self.ptypes))}
         self.ret_types = None
-        main, d = self.block(body, defined, None, top=True, final=lambda d: self.ret_final(ret, d) if ret is not None else
-                             f".error (.other {lean_str('unreachable: end of a function that ends in `while True`')})")
+        if self.name in KT4A_KERNELS:
+            unreachable = f".error (.other {lean_str('while True left without return')})"
+        else:
+            unreachable = f".error (.other {lean_str('unreachable: end of a function that ends in `while True`')})"
+        main, d = self.block(body, defined, None, top=True,
+                             final=(lambda d: self.ret_final(ret, d)) if ret is not None else (lambda d: unreachable))
         rtype = LEAN_T[self.ret_types[0]] if len(self.ret_types) == 1 else \
             "(" + " × ".join(LEAN_T[t] for t in self.ret_types) + ")"
         missing = [v for v in self.locals if v not in self.env]
@@ -1223,8 +1352,9 @@ class Kernel:
     def dispatch_arm(self):
         n = len(self.ptypes)
         conv = {"int": "asInt?", "bool": "asBool?", "arr": "asArr?", "barr": "asBArr?", "opt_arr": "asOptArr?",
-                "arr2": "asArr2?", "opt_int": "asOptInt?", "oarr": "asOptArr?"}
-        mk = {"int": "Val.int", "bool": "Val.bool", "arr": "Val.arr", "barr": "Val.barr", "arr2": "Val.arr2"}
+                "arr2": "asArr2?", "opt_int": "asOptInt?", "oarr": "asOptArr?", "arr2w": "asArr2?", "str": "asStr?"}
+        mk = {"int": "Val.int", "bool": "Val.bool", "arr": "Val.arr", "barr": "Val.barr", "arr2": "Val.arr2", "arr2w": "Val.arr2",
+              "str": "Val.str"}
         pats = ", ".join(f"a{k}" for k in range(n))
         scrut = ", ".join(f"a{k}.{conv[t]}" for k, t in enumerate(self.ptypes))
         somes = ", ".join(f"some x{k}" for k in range(n))
@@ -1247,14 +1377,25 @@ class Kernel:
 
 def translate_all(repo):
     """→ (lean text, [(kernel, reason)] of kernels that could not be translated)"""
-    tree = ast.parse((Path(repo) / SRC).read_text())
-    fns = {n.name: n for n in tree.body if isinstance(n, ast.FunctionDef)}
+    trees = {}
+
+    def functions_of(src):
+        if src not in trees:
+            try:
+                tree = ast.parse((Path(repo) / src).read_text())
+            except OSError:
+                raise Unsupported("source file not found: " + src)
+            trees[src] = {n.name: n for n in tree.body if isinstance(n, ast.FunctionDef)}
+        return trees[src]
     done, failed = [], []
     TRANSLATED.clear()
-    for name, ptypes in WHITELIST:
+    for entry in WHITELIST:
+        name, ptypes = entry[0], entry[1]
+        src = (entry[2] if len(entry) > 2 else {}).get("src", SRC)
         try:
+            fns = functions_of(src)
             if name not in fns:
-                raise Unsupported("function not found in " + SRC)
+                raise Unsupported("function not found in " + src)
             if not is_njit(fns[name]):
                 raise Unsupported("function is not decorated @exetera_njit")
             k = Kernel(fns[name], ptypes)
